@@ -96,6 +96,10 @@ pub enum Op {
     /// fault: this client sleeps `ns` of virtual time at its (`skip`+1)-th scheduling point from
     /// here, i.e. somewhere inside its next operation
     StallSelf { ns: u64, skip: u32 },
+    /// while this client holds the reference of its next `get`/`get_mut` hit it also performs
+    /// `what` (0 = close(), 1 = max_cost(), 2 = update_max_cost(v)) - operations that take no
+    /// shard lock and therefore must not care about the held reference
+    WhileHolding { what: u8, v: i64 },
 }
 
 impl Op {
@@ -143,6 +147,7 @@ impl Op {
             Op::DropHandle => "drop_handle",
             Op::FaultsOff => "faults_off",
             Op::StallSelf { .. } => "stall_self",
+            Op::WhileHolding { .. } => "while_holding",
         }
     }
 }
